@@ -651,6 +651,13 @@ func seqHistoryBody(k int) {
 							b.Put([]byte("bytes_downloaded"), []byte(strconv.FormatInt(m.down, 10)))
 							b.Put([]byte("bytes_uploaded"), []byte(strconv.FormatInt(m.up, 10)))
 						}
+						if !m.magnet && r.Intn(3) == 0 {
+							// the record of a torrent that was added by magnet link with a display name in an earlier
+							// session and has fetched its metadata since: the name differs from the info dictionary's
+							m.name = fmt.Sprintf("display name %d/%d", e.k, r.Intn(1000))
+							tx.Bucket([]byte("torrents")).Bucket([]byte(id)).Put([]byte("name"), []byte(m.name))
+							run.Count("records_with_display_name_planted", 1)
+						}
 					}
 					return nil
 				})
